@@ -474,6 +474,16 @@ def rule_scanner(rep: Report, rid_line="C04.line", rid_scan="C18.scan") -> None:
     selft = ("param", fi.params()[0])
     kw = dict(file=SFILE, line=fi.node.lineno, function=fi.qualname)
     rep.eq(rid_line, "the line counter starts at 0", const(0), st.ext.get((selft, "line_number")), **kw)
+    sios = [n for n, ctx in nf.iter_nodes(tree) if n[0] == "extcall" and n[1] == "io.StringIO"]
+    srcp = ("param", fi.params()[1])
+    io_t = st.ext.get((selft, "io"))
+    def sio_ok(t):
+        return t is not None and t[0] == "call" and t[1] == "io.StringIO" and t[2] == (srcp,) and (not t[3] or all(k == "newline" and is_const(v, "\n") for k, v in t[3]))
+    def alts(t):
+        return alts(t[2]) + alts(t[3]) if t is not None and t[0] == "cond" else [t]
+    ok_sio = io_t is not None and any(sio_ok(a) for a in alts(io_t)) and all(sio_ok(a) or (a is not None and a[0] == "call" and a[1] == "open") for a in alts(io_t))
+    rep.ob(rid_scan, "source text is read through io.StringIO(text) with default newline handling (lines end at line feeds only; lone CR is not a line break)", ok_sio, **kw,
+           expected="io.StringIO(path_or_str)", found=fmt(io_t, I) if io_t else None)
     I, fi, tree, rv, st = _run(f"{SQ}.read")
     rep.used_function(fi.qualname)
     selft = ("param", fi.params()[0])
